@@ -430,6 +430,22 @@ func visitInstr(fr *frame, instr ssa.Instruction) continuation {
 	case *ssa.IndexAddr:
 		x := fr.get(instr.X)
 		idx := fr.get(instr.Index)
+		if _, symIdx := idx.(sv); symIdx && readOnlyAddr(instr) {
+			// a symbolic index into a table that is only read: the element
+			// is an if-then-else chain held in a temporary cell (no fork)
+			var coll value = x
+			if p, ok := x.(*value); ok && p != nil {
+				coll = *p
+			}
+			if sl, ok := coll.([]value); ok {
+				coll = array(sl)
+			}
+			if v, ok := fr.indexIte(coll, idx); ok {
+				cell := v
+				fr.env[instr] = &cell
+				break
+			}
+		}
 		switch x := x.(type) {
 		case []value:
 			fr.env[instr] = &x[fr.index(idx, len(x))]
@@ -546,6 +562,31 @@ func visitInstr(fr *frame, instr ssa.Instruction) continuation {
 	// }
 
 	return kNext
+}
+
+// readOnlyAddr reports whether the address computed by instr is only used
+// to load from (directly or through field addresses).
+func readOnlyAddr(instr ssa.Value) bool {
+	refs := instr.Referrers()
+	if refs == nil {
+		return false
+	}
+	for _, r := range *refs {
+		switch r := r.(type) {
+		case *ssa.UnOp:
+			if r.Op != token.MUL {
+				return false
+			}
+		case *ssa.FieldAddr:
+			if !readOnlyAddr(r) {
+				return false
+			}
+		case *ssa.DebugRef:
+		default:
+			return false
+		}
+	}
+	return true
 }
 
 // prepareCall determines the function value and argument values for a
